@@ -782,7 +782,7 @@ fn handle_backend_messages<R: TransportReceiverT>(
 							if let Some(sub_id) = process_subscription_response(&mut manager.lock(), response) {
 								messages.push(FrontToBack::SubscriptionClosed(sub_id));
 							}
-						} else if let Ok(response) = serde_json::from_slice::<SubscriptionError<_>>(raw) {
+						} else if let Ok(response) = serde_json::from_str::<SubscriptionError<_>>(r.get()) {
 							got_notif = true;
 							process_subscription_close_response(&mut manager.lock(), response);
 						} else if let Ok(notif) = serde_json::from_str::<Notification>(r.get()) {
